@@ -1,12 +1,18 @@
 """C11 — concurrent git-ai activity in one repository loses nothing (DESIGN §8 C11).
 
 Proof:   lean/GitAiModel/Props/C11.lean over Model/Conc.lean (k processes, atomic read/write steps on
-         shared cells, three locking disciplines; `locked_serializable` for every schedule).
-Tie:     a controller (vlib/props/c11_util.py) drives real `git-ai checkpoint` / `git commit` processes
+         shared cells, locking disciplines none / append / full / tbl; `locked_serializable` for every schedule;
+         `mixed_writers_serializable` for batch + single notes writers under the lock order extracted from
+         src/git/refs.rs; `read_before_lock_loses_note` for the order read < lock < write).
+Tie:     extract/notes_lock_order.py regenerates Extracted/NotesLockOrder.lean (order of the lock / tip-read /
+         ref-write statements of every writer of refs/notes/ai; `extracted_lock_order` decides lock < read < write);
+         a controller (vlib/props/c11_util.py) drives real `git-ai checkpoint` / `git commit` processes
          through named sync points (feature verif-hooks, GIT_AI_VERIF_SYNC_DIR) along every
          interleaving of their lock / snapshot / read / write points; the trace of points and the final
          journals / rewrite logs / notes are compared with the model run under the same schedule
-         (driver op `conc_run`, mode `full` = the code after the C11 repair).
+         (driver op `conc_run`, mode = the lock table computed from the extracted statement order; it equals
+         `full` on the unchanged tree). Mixed schedules: a batch writer (cherry-pick / rebase in a linked worktree)
+         against single writers (commit in other worktrees) through every interleaving of their notes points.
 Oracles (evaluated on the real files, independent of the model): every reported file state is
          recorded, lines only one reporter ever saw are credited to it, the journal equals the result of
          a real serial execution in one of the possible orders, every commit's rewrite event and note
@@ -27,8 +33,12 @@ THEOREMS = [
     "GitAi.Conc.journal_paths_injective", "GitAi.Conc.rewrite_log_paths_injective",
     "GitAi.Conc.cell_kinds_disjoint", "GitAi.Conc.worktree_isolation",
     "GitAi.Conc.fallback_collision_witness", "GitAi.Conc.same_file_race_equivalent",
+    "GitAi.Conc.extracted_lock_order", "GitAi.Conc.mixed_writers_serializable_of_ok",
+    "GitAi.Conc.mixed_writers_serializable", "GitAi.Conc.read_before_lock_order",
+    "GitAi.Conc.unheld_lock_order", "GitAi.Conc.read_before_lock_loses_note",
 ]
-MODE = "full"      # the locking discipline of Model/Conc.lean that is tied to the code
+MODE = "full"      # the locking discipline of Model/Conc.lean that is tied to the code; run() replaces it by the
+                   # table {"add": POS, "batch": POS} computed (driver op conc_table) from the extracted lock order
 CORPUS = os.path.join(C.VERIF, "corpus", "C11", "scenarios.jsonl")
 
 
@@ -92,6 +102,51 @@ def extract_lock_sites():
     return facts, problems
 
 
+def phase_lock_order(res):
+    """extract/notes_lock_order.py → Extracted/NotesLockOrder.lean (before the Lean build); returns the rows"""
+    import importlib, sys
+    sys.path.insert(0, os.path.join(C.VERIF, "extract"))
+    import notes_lock_order as X
+    importlib.reload(X)
+    name = "extract NotesLockOrder (every writer of refs/notes/ai*: order of lock / tip read / ref write)"
+    try:
+        x, _ = X.main()
+    except X.ExtractError as e:
+        res.obligation(name, False, "extraction")
+        res.broken_tie(name, str(e))
+        return None
+    except Exception as e:
+        res.obligation(name, False, "extraction")
+        res.broken_tie(name, f"{type(e).__name__}: {e}")
+        return None
+    res.obligation(name, True, "extraction")
+    res.extra["notes_lock_order"] = {
+        "writers": [{k: r[k] for k in ("file", "line", "name", "cls", "events", "held")} for r in x["rows"]],
+        "other_refs": [{k: r[k] for k in ("file", "name", "ref", "events", "held")} for r in x["others"]],
+        "update_ref_callers": x["unserialised"], "outside_quantifier": x["out_of_quantifier"]}
+    return x["rows"]
+
+
+def lock_table(res, rows):
+    """the model's lock table for the extracted rows (driver: tableOf); obligation lock < read < write per writer"""
+    global MODE
+    MODE = "full"
+    if rows is None:
+        return
+    resp = C.run_driver([{"op": "conc_table", "writers": [{"cls": r["cls"], "events": r["events"], "held": r["held"]} for r in rows]}])[0]
+    if not isinstance(resp, dict) or "add" not in resp:
+        res.obligation("extraction: lock order table (driver conc_table)", False, "extraction")
+        res.broken_tie("extraction:lock-order", {"driver": resp})
+        return
+    MODE = {"add": resp["add"], "batch": resp["batch"]}
+    res.extra["notes_lock_order"]["table"] = dict(MODE)
+    bad = [dict(name=r["name"], events=r["events"], held=r["held"], pos=m["pos"]) for r, m in zip(rows, resp["rows"]) if not m["ok"]]
+    res.obligation("extraction: every writer of refs/notes/ai takes the notes lock before it reads the tip, reads before it "
+                   "writes and holds the guard until it returns (lock < read < write)", not bad, "extraction")
+    if bad:
+        res.broken_tie("extraction:lock-order", {"writers not lock < read < write": bad, "model table": MODE})
+
+
 # ---------------------------------------------------------------- scenarios
 
 def ckpt(wt, n, edits):
@@ -100,6 +155,19 @@ def ckpt(wt, n, edits):
 
 def commit(wt, n, empty=False):
     return {"type": "commit", "wt": wt, "id": n, "empty": empty}
+
+
+def ncommit(wt, n):
+    """a commit of which only the notes update is stepped (lock attempt, `git notes add`)"""
+    return {"type": "commit", "wt": wt, "id": n, "empty": False, "notes_only": True}
+
+
+def pick(wt, n):
+    return {"type": "pick", "wt": wt, "id": n}
+
+
+def rebase(wt, n):
+    return {"type": "rebase", "wt": wt, "id": n}
 
 
 KINDS2 = {
@@ -118,7 +186,21 @@ KINDS2 = {
     # a report in one worktree while another worktree commits
     "ckpt-vs-commit": [[ckpt(1, 1, [[0, [100]]])], [commit(2, 2)]],
 }
-STEPS = {"ckpt": 4, "commit": 5}     # sync points of one command under the full discipline
+STEPS = {"ckpt": 4, "commit": 5, "ncommit": 2, "pick": 3, "rebase": 3}   # sync points of one command under the full discipline
+
+# mixed notes writers: one batch writer (notes_add_batch: lock, rev-parse of the tip, fast-import `from <tip>`) in a
+# linked worktree against single writers (notes_add) in other worktrees; all interleavings of the notes points
+MIXED2 = {
+    "pick-vs-commit": [[pick(1, 1)], [ncommit(0, 2)]],
+    "commit-vs-pick": [[ncommit(2, 1)], [pick(1, 2)]],
+    "rebase-vs-commit": [[rebase(1, 1)], [ncommit(2, 2)]],
+    "pick-vs-pick": [[pick(1, 1)], [pick(2, 2)]],
+}
+MIXED3 = {
+    "pick-commit-commit": [[pick(1, 1)], [ncommit(0, 2)], [ncommit(2, 3)]],
+    "pick-rebase-commit": [[pick(1, 1)], [rebase(2, 2)], [ncommit(0, 3)]],
+    "pick-then-commit vs commit-then-commit": [[pick(1, 1), ncommit(1, 3)], [ncommit(0, 2), ncommit(0, 4)]],
+}
 
 KINDS3 = {
     "3-ckpt": [[ckpt(0, 1, [[0, [100]]])], [ckpt(0, 2, [[0, [100, 101]]])], [ckpt(0, 3, [[1, [110]]])]],
@@ -131,7 +213,7 @@ KINDS3 = {
 
 
 def step_counts(procs):
-    return [sum(STEPS[c["type"]] for c in p) for p in procs]
+    return [sum(STEPS["ncommit" if c.get("notes_only") else c["type"]] for c in p) for p in procs]
 
 
 def rng_schedules(rng, counts, n):
@@ -256,15 +338,17 @@ def oracles(run, obs, errors):
                               {"journal": v["journal"], "serial outcomes": sorted(ref)}))
     # --- commits: rewrite event, note, blame
     for c in cmds:
-        if c["type"] != "commit":
+        if c["type"] not in ("commit", "pick", "rebase"):
             continue
         sha = run.commit_sha.get(c["id"])
         if not sha:
             continue
-        rl = obs.get(tuple(w.rw_key(c["wt"])), {}).get("rlog", [])
-        # the scenario's events are the newest ones; retention (MAX_EVENTS) only drops the oldest
-        if c["id"] not in rl:
-            fails.append(("lost-update:rewrite_log", {"commit": c, "sha": sha, "rewrite_log": rl}))
+        if c["type"] == "commit":
+            rk = tuple(w.rw_key(c["wt"]))
+            rl = obs[rk]["rlog"] if obs.get(rk) else w.read_rlog(list(rk))
+            # the scenario's events are the newest ones; retention (MAX_EVENTS) only drops the oldest
+            if c["id"] not in rl:
+                fails.append(("lost-update:rewrite_log", {"commit": c, "sha": sha, "rewrite_log": rl}))
         notes = dict(map(tuple, obs[tuple(w.notes_key())]["notes"]["map"]))
         if notes.get(c["id"]) != c["id"]:
             fails.append(("lost-note:notes-ref", {"commit": c, "sha": sha, "notes": sorted(notes.items())}))
@@ -523,6 +607,19 @@ def load_corpus():
 
 
 def run(tier, seed):
+    """a run against a scratch copy of the repository (VERIF_REPO, mutation testing) regenerates the shared
+    Extracted/NotesLockOrder.lean from that copy; put the table of the real tree back afterwards"""
+    out = os.path.join(C.LEAN, "GitAiModel", "Extracted", "NotesLockOrder.lean")
+    saved = open(out).read() if C._ALT and os.path.exists(out) else None
+    try:
+        return run_(tier, seed)
+    finally:
+        if saved is not None:
+            with C.Lock("lake"):
+                C.write_if_changed(out, saved)
+
+
+def run_(tier, seed):
     import random
     res = C.Result(PROP, tier, seed)
     res.rule = ("controlled: real `git-ai checkpoint agent-v1` / `git commit` processes released one sync point at a time "
@@ -530,17 +627,25 @@ def run(tier, seed):
                 "round-robin; quick: ALL interleavings of the points of 2 processes for 7 scenario kinds (reports of distinct "
                 "files / one file / equal content / several files, commits in one worktree, commits in two linked worktrees, "
                 "report vs commit) + rewrite log at its retention limit; thorough adds 3 processes with up to 2 commands each "
-                "(sampled schedules). distinct = distinct (programs, schedule); non-trivial = the schedule really interleaves "
+                "(sampled schedules). mixed notes writers: a batch writer (cherry-pick / rebase in a linked worktree: lock, "
+                "rev-parse of the notes tip, fast-import) against single writers (commits in other worktrees: lock, git notes "
+                "add) and against another batch writer — ALL interleavings of the notes points of 2 processes for 4 kinds, "
+                "sampled schedules of 3 processes / 2 commands each for 3 kinds. distinct = distinct (programs, schedule); non-trivial = the schedule really interleaves "
                 "(more than one process index). stress: 8-16 parallel reports / parallel commits in 2-3 linked worktrees "
                 "without controller, and a rebase (batch note writer) racing a commit in another worktree")
     res.trusted = ["Lean 4.33 kernel (axioms: propext, Quot.sound, Classical.choice only)",
                    "vlib/props/c11_util.py controller and observation parsers; vlib/e2e.py independent note parser",
+                   "extract/notes_lock_order.py (textual: which exec_git* call is the tip read / the ref write, from the string "
+                   "literals pushed onto its argv; `let <name> = lock_notes_ref(..)` at the top level of the body)",
                    "atomicity of one read / one write of a file and of one git command at the granularity of the sync points",
                    "OS advisory lock semantics (flock): exclusive, released when the holder exits",
                    "git 2.39: `notes add` sets the ref without compare, fast-import compares (validated by the runs)"]
     res.assumptions = ["a lock wait never exceeds STORAGE_LOCK_TIMEOUT (30 s); after it git-ai proceeds unserialised, as before the repair",
                        "files a reporter does not name are unchanged since their latest snapshot (nobody edits without reporting)",
                        "all writers of the journals / refs/notes/ai are git-ai processes (a plain `git notes` by hand is not serialised)",
+                       "fetch / push initialising refs/notes/ai from the tracking ref when no local notes exist (copy_ref: update-ref "
+                       "without the notes lock) and refs/notes/ai-stash are outside the quantifier (checkpoint, commit, rewrite operations); "
+                       "the extractor lists them and fails on any other writer",
                        "a checkpoint racing with a commit in the SAME worktree is outside the property (the base commit changes under it)"]
     ok, out = C.build_git_ai()
     if not ok:
@@ -548,7 +653,12 @@ def run(tier, seed):
         res.broken_tie("build", out[-3000:])
         return res.finish()
     res.obligation("build binary from /repo working tree", True, "build")
-    C.phase_proofs(res, PROP, THEOREMS)
+    # the lock order of the notes writers is read off the source BEFORE the Lean build: Props/C11.lean decides
+    # lock < read < write on the regenerated table (`extracted_lock_order`)
+    rows = phase_lock_order(res)
+    if not C.phase_proofs(res, PROP, THEOREMS):
+        C.lake_build(["driver"])      # the model runs below need the driver even when a theorem no longer checks
+    lock_table(res, rows)
 
     # static tie: the code has the shape the `full` discipline describes; MAX_EVENTS agrees
     facts, problems = extract_lock_sites()
@@ -574,6 +684,17 @@ def run(tier, seed):
                     "seed_rewrite": (facts.get("MAX_EVENTS") or 200) - 2})
     res.extra["exhaustive_two_process"] = {k: len(list(U.interleavings(step_counts(p)))) for k, p in KINDS2.items()}
     phase_controlled(res, scs, "correspondence:conc-e2e all 2-process interleavings (model `full` vs binary)")
+    # 2b. mixed notes writers: a batch writer against single writers (and against another batch writer)
+    mixed = []
+    for kind, procs in MIXED2.items():
+        for s in U.interleavings(step_counts(procs)):
+            mixed.append({"kind": "mixed:" + kind, "procs": procs, "schedule": s, "serial_ref": False})
+    for kind, procs in MIXED3.items():
+        for s in rng_schedules(rng, step_counts(procs), 12 if tier == "quick" else 150):
+            mixed.append({"kind": "mixed:" + kind, "procs": procs, "schedule": s, "serial_ref": False})
+    res.extra["exhaustive_mixed_writers"] = {k: len(list(U.interleavings(step_counts(p)))) for k, p in MIXED2.items()}
+    phase_controlled(res, mixed, "correspondence:conc-e2e mixed notes writers, batch (cherry-pick / rebase) vs single (commit): "
+                                 "all 2-process interleavings + sampled 3-process schedules (model lock table vs binary)")
     # 3. three processes (thorough)
     if tier == "thorough":
         scs3 = []
@@ -597,6 +718,9 @@ def run(tier, seed):
         for kind, procs in KINDS3.items():
             for s in rng_schedules(rng, step_counts(procs), 30):
                 extra.append({"kind": kind, "procs": procs, "schedule": s})
+        for kind, procs in MIXED3.items():
+            for s in rng_schedules(rng, step_counts(procs), 40):
+                extra.append({"kind": "mixed:" + kind, "procs": procs, "schedule": s, "serial_ref": False})
         phase_controlled(res, extra, "search:conc-e2e extra schedules")
         phase_stress(res, 60, seed + 1)
         res.extra["search"] = (f"{len(extra)} extra controlled schedules (2 and 3 processes) and 60 extra stress rounds, "
@@ -623,6 +747,19 @@ def replay(path):
         print(json.dumps(fails[:3], indent=1)[:3000])
         return bool(fails)
     sc = w["scenario"]
+    # the model runs under the lock table of the tree that is replayed (nothing is written)
+    global MODE
+    try:
+        import sys
+        sys.path.insert(0, os.path.join(C.VERIF, "extract"))
+        import notes_lock_order as X
+        rows = X.extract()["rows"]
+        t = C.run_driver([{"op": "conc_table", "writers": [{"cls": r["cls"], "events": r["events"], "held": r["held"]} for r in rows]}])[0]
+        MODE = {"add": t["add"], "batch": t["batch"]}
+    except Exception as ex:
+        print("lock order not extracted:", ex)
+        MODE = "full"
+    print("model lock table:", MODE)
     o = run_controlled(sc)
     if o["error"]:
         print(o["error"]); return None
